@@ -1,10 +1,490 @@
 package c04
 
-import (
-	"testing"
+// Part B: operation sequences against the real PackagedFunctionRunner. The
+// functions are in-process gRPC servers on unix sockets (real sockets, real
+// gRPC stack), so these scenarios run outside the synctest bubble. The oracle
+// never looks at the clock: it only compares which server recorded which
+// request with a model of the installed functions and their revisions.
 
+import (
+	"context"
+	"errors"
+	"fmt"
+	"net"
+	"os"
+	"path/filepath"
+	"strings"
+	"sync"
+	"testing"
+	"time"
+
+	"google.golang.org/grpc"
+	"google.golang.org/protobuf/proto"
+	"google.golang.org/protobuf/types/known/durationpb"
+	"google.golang.org/protobuf/types/known/structpb"
+	metav1 "k8s.io/apimachinery/pkg/apis/meta/v1"
+	"k8s.io/apimachinery/pkg/apis/meta/v1/unstructured"
+
+	fnv1 "github.com/crossplane/crossplane/apis/apiextensions/fn/proto/v1"
+	fnv1beta1 "github.com/crossplane/crossplane/apis/apiextensions/fn/proto/v1beta1"
+	pkgv1 "github.com/crossplane/crossplane/apis/pkg/v1"
+	"github.com/crossplane/crossplane/internal/xfn"
+	"github.com/crossplane/crossplane/verif/explore"
 	"github.com/crossplane/crossplane/verif/report"
+	"github.com/crossplane/crossplane/verif/simkube"
+	"github.com/crossplane/crossplane/verif/xrh"
 )
 
-func runnerScenarios(t *testing.T, rep *report.R) []report.Scenario { return nil }
-func stopServers()                                                  {}
+// delivery is one request received by one server, and what it answered.
+type delivery struct {
+	server string
+	req    proto.Message // *fnv1.RunFunctionRequest or *fnv1beta1.RunFunctionRequest
+	rsp    proto.Message
+}
+
+type fnEnv struct {
+	dir       string
+	endpoints map[string]string // server id -> gRPC target
+	grpcs     []*grpc.Server
+
+	mu  sync.Mutex
+	log []delivery
+}
+
+func (e *fnEnv) record(d delivery) {
+	e.mu.Lock()
+	defer e.mu.Unlock()
+	e.log = append(e.log, d)
+}
+
+func (e *fnEnv) take() []delivery {
+	e.mu.Lock()
+	defer e.mu.Unlock()
+	out := e.log
+	e.log = nil
+	return out
+}
+
+// v1Server answers the v1 RPC.
+type v1Server struct {
+	fnv1.UnimplementedFunctionRunnerServiceServer
+	id  string
+	env *fnEnv
+}
+
+func richResponseFields(id, tag string) (*structpb.Struct, *structpb.Struct) {
+	ctx := mustStruct(map[string]any{"server": id, "tag": tag, "nested": map[string]any{"n": 1.5, "l": []any{nil, false, "s"}}})
+	res := mustStruct(map[string]any{"apiVersion": "res.example.org/v1", "kind": "ResA", "spec": map[string]any{"from": id}})
+	return ctx, res
+}
+
+func (s *v1Server) RunFunction(_ context.Context, req *fnv1.RunFunctionRequest) (*fnv1.RunFunctionResponse, error) {
+	ctx, res := richResponseFields(s.id, req.GetMeta().GetTag())
+	rsp := &fnv1.RunFunctionResponse{
+		Meta:    &fnv1.ResponseMeta{Tag: req.GetMeta().GetTag(), Ttl: durationpb.New(90 * time.Second)},
+		Desired: &fnv1.State{Composite: &fnv1.Resource{Resource: res, ConnectionDetails: map[string][]byte{"k": {0, 1, 255}}, Ready: fnv1.Ready_READY_FALSE}, Resources: map[string]*fnv1.Resource{"a": {Resource: res, Ready: fnv1.Ready_READY_TRUE}}},
+		Context: ctx,
+		Results: []*fnv1.Result{{Severity: fnv1.Severity_SEVERITY_WARNING, Message: "from " + s.id, Reason: proto.String("Why"), Target: fnv1.Target_TARGET_COMPOSITE_AND_CLAIM.Enum()}},
+		Requirements: &fnv1.Requirements{ExtraResources: map[string]*fnv1.ResourceSelector{
+			"n": {ApiVersion: "v1", Kind: "ConfigMap", Match: &fnv1.ResourceSelector_MatchName{MatchName: "x"}},
+			"l": {ApiVersion: "v1", Kind: "ConfigMap", Match: &fnv1.ResourceSelector_MatchLabels{MatchLabels: &fnv1.MatchLabels{Labels: map[string]string{"a": "b"}}}},
+		}},
+		Conditions: []*fnv1.Condition{{Type: "Custom", Status: fnv1.Status_STATUS_CONDITION_FALSE, Reason: "R", Message: proto.String("m"), Target: fnv1.Target_TARGET_COMPOSITE.Enum()}},
+	}
+	s.env.record(delivery{server: s.id, req: proto.Clone(req), rsp: proto.Clone(rsp)})
+	return rsp, nil
+}
+
+// betaServer answers the v1beta1 RPC only; its gRPC server does not register
+// the v1 service at all.
+type betaServer struct {
+	fnv1beta1.UnimplementedFunctionRunnerServiceServer
+	id  string
+	env *fnEnv
+}
+
+func (s *betaServer) RunFunction(_ context.Context, req *fnv1beta1.RunFunctionRequest) (*fnv1beta1.RunFunctionResponse, error) {
+	ctx, res := richResponseFields(s.id, req.GetMeta().GetTag())
+	rsp := &fnv1beta1.RunFunctionResponse{
+		Meta:    &fnv1beta1.ResponseMeta{Tag: req.GetMeta().GetTag(), Ttl: durationpb.New(30 * time.Second)},
+		Desired: &fnv1beta1.State{Composite: &fnv1beta1.Resource{Resource: res, ConnectionDetails: map[string][]byte{"k": {0, 1, 255}}, Ready: fnv1beta1.Ready_READY_TRUE}, Resources: map[string]*fnv1beta1.Resource{"a": {Resource: res, Ready: fnv1beta1.Ready_READY_FALSE}}},
+		Context: ctx,
+		Results: []*fnv1beta1.Result{{Severity: fnv1beta1.Severity_SEVERITY_NORMAL, Message: "from " + s.id, Reason: proto.String("Why"), Target: fnv1beta1.Target_TARGET_COMPOSITE.Enum()}},
+		Requirements: &fnv1beta1.Requirements{ExtraResources: map[string]*fnv1beta1.ResourceSelector{
+			"n": {ApiVersion: "v1", Kind: "ConfigMap", Match: &fnv1beta1.ResourceSelector_MatchName{MatchName: "x"}},
+			"l": {ApiVersion: "v1", Kind: "ConfigMap", Match: &fnv1beta1.ResourceSelector_MatchLabels{MatchLabels: &fnv1beta1.MatchLabels{Labels: map[string]string{"a": "b"}}}},
+		}},
+		Conditions: []*fnv1beta1.Condition{{Type: "Custom", Status: fnv1beta1.Status_STATUS_CONDITION_TRUE, Reason: "R", Message: proto.String("m"), Target: fnv1beta1.Target_TARGET_COMPOSITE_AND_CLAIM.Enum()}},
+	}
+	s.env.record(delivery{server: s.id, req: proto.Clone(req), rsp: proto.Clone(rsp)})
+	return rsp, nil
+}
+
+var (
+	theEnv    *fnEnv
+	theEnvErr error
+)
+
+// servers starts (once per process) the function servers: A, B, C speak v1, G
+// speaks only v1beta1.
+func servers() (*fnEnv, error) {
+	if theEnv != nil || theEnvErr != nil {
+		return theEnv, theEnvErr
+	}
+	dir, err := os.MkdirTemp("", "c04-")
+	if err != nil {
+		theEnvErr = err
+		return nil, err
+	}
+	e := &fnEnv{dir: dir, endpoints: map[string]string{}}
+	for _, id := range []string{"A", "B", "C", "G"} {
+		path := filepath.Join(dir, id+".sock")
+		lis, err := net.Listen("unix", path)
+		if err != nil {
+			theEnvErr = err
+			e.stop()
+			return nil, err
+		}
+		g := grpc.NewServer()
+		if id == "G" {
+			fnv1beta1.RegisterFunctionRunnerServiceServer(g, &betaServer{id: id, env: e})
+		} else {
+			fnv1.RegisterFunctionRunnerServiceServer(g, &v1Server{id: id, env: e})
+		}
+		go func() { _ = g.Serve(lis) }()
+		e.grpcs = append(e.grpcs, g)
+		e.endpoints[id] = "unix://" + path
+	}
+	theEnv = e
+	return e, nil
+}
+
+func (e *fnEnv) stop() {
+	for _, g := range e.grpcs {
+		g.Stop()
+	}
+	_ = os.RemoveAll(e.dir)
+}
+
+func stopServers() {
+	if theEnv != nil {
+		theEnv.stop()
+		theEnv = nil
+	}
+}
+
+// richRequest exercises every field of a RunFunctionRequest.
+func richRequest(tag string) *fnv1.RunFunctionRequest {
+	xr := mustStruct(map[string]any{"apiVersion": "example.org/v1", "kind": "XThing", "metadata": map[string]any{"name": "xr1", "generation": 3.0}, "spec": map[string]any{"param": "p", "list": []any{1.0, "two", nil, map[string]any{"k": true}}}})
+	res := mustStruct(map[string]any{"apiVersion": "res.example.org/v1", "kind": "ResA", "metadata": map[string]any{"name": "a-1"}})
+	return &fnv1.RunFunctionRequest{
+		Meta:     &fnv1.RequestMeta{Tag: tag},
+		Observed: &fnv1.State{Composite: &fnv1.Resource{Resource: xr, ConnectionDetails: map[string][]byte{"xr-key": []byte("v"), "empty": {}}}, Resources: map[string]*fnv1.Resource{"a": {Resource: res, ConnectionDetails: map[string][]byte{"user": []byte("u")}}}},
+		Desired:  &fnv1.State{Composite: &fnv1.Resource{Resource: xr, Ready: fnv1.Ready_READY_TRUE}, Resources: map[string]*fnv1.Resource{"a": {Resource: res, Ready: fnv1.Ready_READY_FALSE}, "b": {Resource: res}}},
+		Input:    mustStruct(map[string]any{"apiVersion": "fn.example.org/v1", "kind": "Input", "n": 1.0}),
+		Context:  mustStruct(map[string]any{"k": "v", "deep": map[string]any{"x": []any{}}}),
+		ExtraResources: map[string]*fnv1.Resources{
+			"x":    {Items: []*fnv1.Resource{{Resource: res}, {Resource: xr}}},
+			"none": {},
+		},
+		Credentials: map[string]*fnv1.Credentials{"c": {Source: &fnv1.Credentials_CredentialData{CredentialData: &fnv1.CredentialData{Data: map[string][]byte{"token": []byte("t")}}}}},
+	}
+}
+
+var samplesB int
+
+var runnerOps = []string{"run-f", "run-g", "switch-f", "endpoint-f", "uninstall-f", "reinstall-f", "gc"}
+
+var (
+	fnGK  = simkube.ObjKey{Group: "pkg.crossplane.io", Kind: "Function"}
+	revGK = simkube.ObjKey{Group: "pkg.crossplane.io", Kind: "FunctionRevision"}
+)
+
+func fnKey(name string) simkube.ObjKey  { k := fnGK; k.Name = name; return k }
+func revKey(name string) simkube.ObjKey { k := revGK; k.Name = name; return k }
+
+func function(name string) *pkgv1.Function {
+	return &pkgv1.Function{TypeMeta: metav1.TypeMeta{APIVersion: "pkg.crossplane.io/v1", Kind: "Function"}, ObjectMeta: metav1.ObjectMeta{Name: name},
+		Spec: pkgv1.FunctionSpec{PackageSpec: pkgv1.PackageSpec{Package: "example.org/" + name + ":v1"}}}
+}
+
+func revision(fn, name string, active bool, endpoint string) *pkgv1.FunctionRevision {
+	ds := pkgv1.PackageRevisionInactive
+	if active {
+		ds = pkgv1.PackageRevisionActive
+	}
+	return &pkgv1.FunctionRevision{TypeMeta: metav1.TypeMeta{APIVersion: "pkg.crossplane.io/v1", Kind: "FunctionRevision"},
+		ObjectMeta: metav1.ObjectMeta{Name: name, Labels: map[string]string{pkgv1.LabelParentPackage: fn}},
+		Spec:       pkgv1.FunctionRevisionSpec{PackageRevisionSpec: pkgv1.PackageRevisionSpec{DesiredState: ds, Package: "example.org/" + fn + ":v1", Revision: 1}},
+		Status:     pkgv1.FunctionRevisionStatus{Endpoint: endpoint}}
+}
+
+// fModel is the reference model of function f.
+type fModel struct {
+	installed bool
+	active    int       // 0 none, 1 rev1, 2 rev2
+	ep        [3]string // ep[1], ep[2]: server id of the revision's endpoint, "" = empty endpoint
+	cached    bool      // the runner has (should have) a cached connection for f
+}
+
+func nextEndpoint(rev int, cur string) string {
+	primary := map[int]string{1: "A", 2: "B"}[rev]
+	switch cur {
+	case primary:
+		return "C"
+	case "C":
+		return ""
+	}
+	return primary
+}
+
+func toV1Request(m proto.Message) (*fnv1.RunFunctionRequest, error) {
+	if v, ok := m.(*fnv1.RunFunctionRequest); ok {
+		return v, nil
+	}
+	b, err := proto.Marshal(m)
+	if err != nil {
+		return nil, err
+	}
+	out := &fnv1.RunFunctionRequest{}
+	return out, proto.Unmarshal(b, out)
+}
+
+func toV1Response(m proto.Message) (*fnv1.RunFunctionResponse, error) {
+	if v, ok := m.(*fnv1.RunFunctionResponse); ok {
+		return v, nil
+	}
+	b, err := proto.Marshal(m)
+	if err != nil {
+		return nil, err
+	}
+	out := &fnv1.RunFunctionResponse{}
+	return out, proto.Unmarshal(b, out)
+}
+
+func runnerBody(r *explore.Run, rep *report.R, scName string, depth int) {
+	ops := make([]string, depth)
+	for i := range ops {
+		ops[i] = runnerOps[r.Free(len(runnerOps), fmt.Sprintf("op%d", i))]
+	}
+	env, err := servers()
+	if err != nil {
+		panic(explore.HarnessError{Msg: "cannot start function servers: " + err.Error()})
+	}
+	env.take()
+	s := xrh.NewStore()
+	setEndpoint := func(rev int, id string) {
+		target := ""
+		if id != "" {
+			target = env.endpoints[id]
+		}
+		s.Mutate(revKey(fmt.Sprintf("f-rev%d", rev)), func(u *unstructured.Unstructured) {
+			if target == "" {
+				unstructured.RemoveNestedField(u.Object, "status", "endpoint")
+				return
+			}
+			_ = unstructured.SetNestedField(u.Object, target, "status", "endpoint")
+		})
+	}
+	setActive := func(active int) {
+		for rev := 1; rev <= 2; rev++ {
+			ds := string(pkgv1.PackageRevisionInactive)
+			if rev == active {
+				ds = string(pkgv1.PackageRevisionActive)
+			}
+			s.Mutate(revKey(fmt.Sprintf("f-rev%d", rev)), func(u *unstructured.Unstructured) {
+				_ = unstructured.SetNestedField(u.Object, ds, "spec", "desiredState")
+			})
+		}
+	}
+	install := func(m *fModel, ep1 string) {
+		s.Seed(function("f"))
+		// The inactive revision sorts first when rev2 is the active one.
+		s.Seed(revision("f", "f-rev1", true, env.endpoints[ep1]))
+		s.Seed(revision("f", "f-rev2", false, env.endpoints["B"]))
+		m.installed, m.active, m.ep = true, 1, [3]string{"", ep1, "B"}
+	}
+	m := &fModel{}
+	install(m, "A")
+	s.Seed(function("g"))
+	s.Seed(revision("g", "g-rev0", false, env.endpoints["A"])) // an old, inactive revision
+	s.Seed(revision("g", "g-rev1", true, env.endpoints["G"]))
+	gCached := false
+
+	runner := xfn.NewPackagedFunctionRunner(s.Client("xfn"))
+	defer func() {
+		// Close every connection of this execution.
+		for _, k := range []simkube.ObjKey{fnKey("f"), fnKey("g")} {
+			s.Remove(k)
+		}
+		_, _ = runner.GarbageCollectConnectionsNow(context.Background())
+	}()
+	ctx, cancel := context.WithTimeout(context.Background(), 60*time.Second)
+	defer cancel()
+
+	run := func(i int, fn string) (rsp *fnv1.RunFunctionResponse, err error) {
+		defer func() {
+			if p := recover(); p != nil {
+				if he, ok := p.(explore.HarnessError); ok {
+					panic(he)
+				}
+				r.Failf("panic/run-function", "ops %v: RunFunction(%q) panicked at op %d: %v", ops, fn, i, p)
+			}
+		}()
+		rsp, err = runner.RunFunction(ctx, fn, richRequest(fmt.Sprintf("op%d", i)))
+		if err != nil && (errors.Is(err, context.DeadlineExceeded) || strings.Contains(err.Error(), "DeadlineExceeded")) {
+			panic(explore.HarnessError{Msg: fmt.Sprintf("watchdog: RunFunction(%q) did not return (ops %v, op %d): %v", fn, ops, i, err)})
+		}
+		return rsp, err
+	}
+
+	var outcome []string
+	interesting := false
+	changed := false
+	for i, op := range ops {
+		where := fmt.Sprintf("ops %v, op %d (%s)", ops, i, op)
+		switch op {
+		case "run-f", "run-g":
+			fn := op[len("run-"):]
+			want := "G" // server that must receive the call; "" = the call must fail
+			if fn == "f" {
+				want = ""
+				if m.installed && m.active != 0 {
+					want = m.ep[m.active]
+				}
+			}
+			orig := richRequest(fmt.Sprintf("op%d", i))
+			rsp, err := run(i, fn)
+			got := env.take()
+			r.Logf("%s: model installed=%v active=%d endpoints=%v -> want server %q; err=%v deliveries=%d", where, m.installed, m.active, m.ep[1:], want, err, len(got))
+			if want == "" {
+				if len(got) > 0 {
+					r.Failf("route/stale-call", "%s: function f has no active revision with an endpoint (installed=%v active=%d endpoints=%v), yet server %s received the request", where, m.installed, m.active, m.ep[1:], got[0].server)
+				}
+				if err == nil {
+					r.Failf("route/no-endpoint-not-an-error", "%s: function f has no active revision with an endpoint, yet RunFunction succeeded", where)
+				}
+				outcome = append(outcome, op+":error")
+				break
+			}
+			if err != nil {
+				r.Failf("route/unexpected-error", "%s: the active revision's endpoint is served by %s, yet RunFunction failed: %v", where, want, err)
+			}
+			if len(got) != 1 || got[0].server != want {
+				var ss []string
+				for _, d := range got {
+					ss = append(ss, d.server)
+				}
+				r.Failf("route/wrong-server", "%s: the request must reach exactly the server at the active revision's current endpoint (%s); it reached %v", where, want, ss)
+			}
+			dreq, e1 := toV1Request(got[0].req)
+			drsp, e2 := toV1Response(got[0].rsp)
+			if e1 != nil || e2 != nil {
+				r.Failf("beta/not-decodable", "%s: cannot re-encode the delivered v1beta1 messages as v1: %v %v", where, e1, e2)
+			}
+			sig := "delivery"
+			if want == "G" {
+				sig = "beta"
+			}
+			if !proto.Equal(dreq, orig) {
+				r.Failf(sig+"/request-differs", "%s: server %s received a request that is not proto-equal to the one sent: sent %s got %s", where, want, short(orig), short(dreq))
+			}
+			if !proto.Equal(drsp, rsp) {
+				r.Failf(sig+"/response-differs", "%s: RunFunction returned a response that is not proto-equal to the one server %s produced: produced %s returned %s", where, want, short(drsp), short(rsp))
+			}
+			if fn == "f" {
+				m.cached = true
+				if changed {
+					interesting = true
+				}
+			} else {
+				gCached = true
+			}
+			outcome = append(outcome, op+":"+want)
+		case "switch-f":
+			if m.installed {
+				m.active = (m.active + 1) % 3
+				setActive(m.active)
+				changed = true
+			}
+			outcome = append(outcome, fmt.Sprintf("%s:%d", op, m.active))
+		case "endpoint-f":
+			if m.installed && m.active != 0 {
+				m.ep[m.active] = nextEndpoint(m.active, m.ep[m.active])
+				setEndpoint(m.active, m.ep[m.active])
+				changed = true
+			}
+			outcome = append(outcome, op+":"+m.ep[m.active])
+		case "uninstall-f":
+			s.Remove(fnKey("f"))
+			s.Remove(revKey("f-rev1"))
+			s.Remove(revKey("f-rev2"))
+			m.installed, m.active = false, 0
+			changed = true
+			outcome = append(outcome, op)
+		case "reinstall-f":
+			if !m.installed {
+				install(m, "C")
+				changed = true
+			}
+			outcome = append(outcome, op)
+		case "gc":
+			want := 0
+			if m.cached && !m.installed {
+				want = 1
+			}
+			var n int
+			var err error
+			func() {
+				defer func() {
+					if p := recover(); p != nil {
+						r.Failf("panic/gc", "%s: GarbageCollectConnectionsNow panicked: %v", where, p)
+					}
+				}()
+				n, err = runner.GarbageCollectConnectionsNow(ctx)
+			}()
+			r.Logf("%s: cached f=%v g=%v installed=%v -> closed %d (want %d) err=%v", where, m.cached, gCached, m.installed, n, want, err)
+			if err != nil {
+				r.Failf("gc/error", "%s: GarbageCollectConnectionsNow failed: %v", where, err)
+			}
+			if n != want {
+				r.Failf("gc/count", "%s: GarbageCollectConnectionsNow closed %d connection(s); exactly the connections of functions that are no longer installed must be closed (%d): cached f=%v g=%v, f installed=%v", where, n, want, m.cached, gCached, m.installed)
+			}
+			if want == 1 {
+				m.cached = false
+				interesting = true
+			}
+			outcome = append(outcome, fmt.Sprintf("gc:%d", n))
+		}
+		if extra := env.take(); len(extra) > 0 {
+			r.Failf("route/unsolicited-call", "%s: server %s received a request although no function was run", where, extra[0].server)
+		}
+	}
+	nt := ""
+	if interesting {
+		nt = report.Hash(ops)
+	}
+	rep.Eval(scName, report.Hash(outcome), nt)
+	if nt != "" && samplesB < 1 && rep.WantSample() {
+		samplesB++
+		rep.Sample(map[string]any{"scenario": scName, "ops": ops, "observed": outcome})
+	}
+}
+
+// runnerScenarios returns the Part B scenarios, or none (with a note) when the
+// sandbox does not allow unix sockets.
+func runnerScenarios(t *testing.T, rep *report.R) []report.Scenario {
+	if _, err := servers(); err != nil {
+		rep.Note("Part B (PackagedFunctionRunner over real unix sockets) dropped: cannot listen on a unix socket in this sandbox: %v", err)
+		return nil
+	}
+	rep.Note("Part B ran against in-process gRPC servers on real unix sockets (unix:// targets, insecure transport credentials), outside the synctest bubble")
+	depth := 3
+	if report.Thorough() {
+		depth = 4
+	}
+	rep.Bound("runner_ops", runnerOps)
+	rep.Bound("runner_op_sequence_depth", depth)
+	name := fmt.Sprintf("runner/ops%d", depth)
+	return []report.Scenario{{Name: name, Bound: 0, Body: func(r *explore.Run) { runnerBody(r, rep, name, depth) }}}
+}
